@@ -112,11 +112,12 @@ structure ImplOut where
   rrs : List RR
   soa : Option RR
   log : List (String × Nat)    -- (addr, port)
+  logFull : List (String × Bool × String × Nat)   -- (addr, tcp, qname, qtype)
   logRaw : String
   elapsed : Nat
 
 def parseImpl (s : String) : Option ImplOut :=
-  if s = "panic" || s = "hang" then some { result := s, kind := s, rrs := [], soa := none, log := [], logRaw := "", elapsed := 0 }
+  if s = "panic" || s = "hang" then some { result := s, kind := s, rrs := [], soa := none, log := [], logFull := [], logRaw := "", elapsed := 0 }
   else
     match s.splitOn " # " with
     | [res, log, el, _dump] =>
@@ -124,12 +125,16 @@ def parseImpl (s : String) : Option ImplOut :=
         match e.splitOn "~" with
         | a :: p :: _ => p.toNat?.map (fun p => (a, p))
         | _ => none)
+      let logFull := if log = "-" then [] else (log.splitOn ";").filterMap (fun e =>
+        match e.splitOn "~" with
+        | [a, _, t, qn, qt, _] => qt.toNat?.map (fun qt => (a, t == "t", qn, qt))
+        | _ => none)
       match res.splitOn " ", el.toNat? with
       | ["ok", kind, rrs, soa], some elapsed =>
         match parseRRs rrs, (if soa = "-" then some none else (parseRR soa).map some) with
-        | some rrs, some soa => some { result := res, kind, rrs, soa, log := logEntries, logRaw := log, elapsed }
+        | some rrs, some soa => some { result := res, kind, rrs, soa, log := logEntries, logFull, logRaw := log, elapsed }
         | _, _ => none
-      | "err" :: _, some elapsed => some { result := res, kind := "err", rrs := [], soa := none, log := logEntries, logRaw := log, elapsed }
+      | "err" :: _, some elapsed => some { result := res, kind := "err", rrs := [], soa := none, log := logEntries, logFull, logRaw := log, elapsed }
       | _, _ => none
     | _ => none
 
@@ -206,8 +211,24 @@ def cmdResolve (family mode zones cache script question expect impl : String) : 
                   | none => [])
             let provOk := io.rrs.all (fun rr =>
               known.any (fun k => k.rtype == rr.rtype && k.fields == rr.fields && (k.name == rr.name || true)))
+            -- each exchange within 5 s: the time spent is at most the sum, over the exchanges made, of
+            -- min(scripted delay, 5 s); and a reply scripted to arrive after 5 s is never a source
+            let entryOf (e : String × Bool × String × Nat) : Option ScriptEntry :=
+              script.reverse.find? (fun se => showAddr se.addr == e.1 && se.tcp == e.2.1 && showName se.qname == e.2.2.1 && se.qtype == e.2.2.2)
+            let timeBound := (io.logFull.map (fun e => match entryOf e with
+              | some se => min se.delayMs 5000
+              | none => 0)).sum
+            let knownInTime : List RR :=
+              (allZones.zones.flatMap (fun kv => zoneAllRRs kv.2 ++ (kv.2.allWildcardRecords.flatMap (fun (n, zrs) => zrs.map (·.toRR n)))))
+              ++ cacheRRs ++ script.flatMap (fun e => match e.raw with
+                  | some m => if e.delayMs ≥ 5000 then [] else m.answers ++ m.authority ++ m.additional
+                  | none => [])
+            let provInTime := io.rrs.all (fun rr => knownInTime.any (fun k => k.rtype == rr.rtype && k.fields == rr.fields))
             let c08 := (if io.elapsed > 60000 then ["fail:C08:over-60s-budget"] else [])
               ++ (if okRes && !provOk then ["fail:C08:record-from-nowhere"] else [])
+              ++ (if io.kind != "panic" && io.kind != "hang" && io.logFull.length == io.log.length && io.elapsed > timeBound
+                  then ["fail:C08:exchange-over-5s"] else [])
+              ++ (if okRes && provOk && !provInTime then ["fail:C08:late-reply-used"] else [])
             -- C18: address family, port, forwarder
             let c18 := match rmode with
               | .auth => if io.log.isEmpty then [] else ["fail:C18:auth-only-contacted-upstream"]
@@ -217,6 +238,37 @@ def cmdResolve (family mode zones cache script question expect impl : String) : 
                 ++ (if io.log.any (fun e => e.2 != port) then ["fail:C18:wrong-port"] else [])
               | .fwd addr port =>
                 if io.log.any (fun e => e.1 != showAddr addr || e.2 != port) then ["fail:C18:not-the-forwarder"] else []
+            -- C18 prefer-vX: never contact a nameserver at an address of the other family while holding
+            -- an address of the preferred family for it (held = local zones + records of earlier replies);
+            -- judged on consistent universes only
+            let c18p : List String :=
+              match rmode with
+              | .recursive pm _ =>
+                if (pm == .preferV4 || pm == .preferV6) && family.startsWith "universe" then
+                  let wantV4 := pm == .preferV4
+                  let zoneRRs := allZones.zones.flatMap (fun kv => zoneAllRRs kv.2)
+                  let replyOf (e : String × Bool × String × Nat) : List RR :=
+                    match script.reverse.find? (fun se => showAddr se.addr == e.1 && se.tcp == e.2.1 && showName se.qname == e.2.2.1 && se.qtype == e.2.2.2) with
+                    | some se => (match se.raw with | some m => m.answers ++ m.authority ++ m.additional | none => [])
+                    | none => []
+                  let addrText (rr : RR) : Option String := match rr.fields with
+                    | [.a x] => some (showAddr (.a x))
+                    | [.aaaa g] => some (showAddr (.aaaa g))
+                    | _ => none
+                  let bad := (List.range io.logFull.length).any (fun i =>
+                    match io.logFull[i]? with
+                    | none => false
+                    | some e =>
+                      let isV4 := e.1.startsWith "4:"
+                      if isV4 == wantV4 then false
+                      else
+                        let known := zoneRRs ++ (io.logFull.take i).flatMap replyOf
+                        let hosts := known.filterMap (fun rr => if addrText rr == some e.1 then some rr.name else none)
+                        hosts.any (fun h => known.any (fun rr => rr.name == h &&
+                          (if wantV4 then rr.rtype == RT_A else rr.rtype == RT_AAAA))))
+                  if bad then ["fail:C18:other-family-used-while-holding-preferred-address"] else []
+                else []
+              | _ => []
             -- C10: chain shape
             let localIsDelegation := match (resolveLocal (Gen.RECURSION_LIMIT + 1) ctx q).2 with
               | .ok (.delegation _ _ _) => true
@@ -302,7 +354,7 @@ def cmdResolve (family mode zones cache script question expect impl : String) : 
                       else if !soaOk then ["fail:C07:soa"]
                       else []
                   | _ => ["fail:C07:bad-expect"]
-            c08 ++ c18 ++ c10 ++ c01 ++ c01d ++ c07
+            c08 ++ c18 ++ c18p ++ c10 ++ c01 ++ c01d ++ c07
       let oracle := if verdicts.isEmpty then "ok" else ",".intercalate verdicts
       -- with several nameservers per zone the referral host order comes out of a HashSet:
       -- the model is not authoritative there, only the specification oracles judge the case
